@@ -54,7 +54,10 @@ def _one(job):
         cmd += ["--error-format=json"]
     if not run:
         cmd += ["--emit=metadata"]
-    p = subprocess.run(cmd, env=env, stdout=subprocess.PIPE, stderr=subprocess.PIPE, text=True, timeout=900, cwd=outdir)
+    try:
+        p = subprocess.run(cmd, env=env, stdout=subprocess.PIPE, stderr=subprocess.PIPE, text=True, timeout=900, cwd=outdir)
+    except subprocess.TimeoutExpired:
+        return {"compiled": False, "stderr": "rustc did not finish within 900 s", "timeout": True}
     res = {"compiled": p.returncode == 0, "stderr": p.stderr}
     if p.returncode == 0 and run:
         renv = dict(env)
